@@ -464,8 +464,30 @@ namespace mh {
         if ( concurrent && !failed()) {
             MapModel init;
             LinChecker<MapModel> lc( cx.hist.ev );
-            if ( !lc.check( init ))
-                fail( std::string( "history is not linearizable to a sequential " ) + ( "set/map" ) + ": " + history_text( cx.hist.ev, kModelNames ));
+            if ( !lc.check( init )) {
+                // diagnosis: does the history become linearizable once failed removals that overlap a successful
+                // removal of the same key are ignored? (tag used to tell a known contention pattern from anything else)
+                std::vector<Ev> relaxed;
+                for ( Ev const& e : cx.hist.ev ) {
+                    bool drop = false;
+                    if (( e.op == M_ERASE || e.op == M_ERASE_TAG ) && e.r == 0 )
+                        for ( Ev const& s : cx.hist.ev ) {
+                            bool removes = (( s.op == M_ERASE || s.op == M_ERASE_TAG ) && s.r != 0 && s.a == e.a )
+                                || (( s.op == M_EXTRACT_MIN || s.op == M_EXTRACT_MAX ) && s.r == e.a );
+                            if ( removes && s.inv < e.resp && e.inv < s.resp )
+                                drop = true;
+                        }
+                    if ( !drop )
+                        relaxed.push_back( e );
+                }
+                std::string tag;
+                if ( relaxed.size() != cx.hist.ev.size()) {
+                    LinChecker<MapModel> lr( relaxed );
+                    if ( lr.check( init ) && !lr.gave_up())
+                        tag = "[failed-remove-overlapping-remove] ";
+                }
+                fail( tag + "history is not linearizable to a sequential set/map: " + history_text( cx.hist.ev, kModelNames ));
+            }
             if ( lc.gave_up())
                 note_class( "lin_gave_up" );
             if ( !failed() && hc.check_minmax )
